@@ -48,7 +48,8 @@ def run(chk, tier):
     import refcount
     nrf = refcount.run(chk, P)
     chk.floor("R-INITFINI", "release sites of the component reference count", nrf, 5)
-    chk.decided += ["every structure-modifying public call on an adopted topology is refused before it can touch the mapping (all public entry points with a topology parameter)",
+    chk.decided += ["adopt's error paths release the component reference only when they hold one",
+                    "every structure-modifying public call on an adopted topology is refused before it can touch the mapping (all public entry points with a topology parameter)",
                     "hwloc_topology_allow operates on adopter-private sets", "mismatching header fields -> EINVAL, unavailable range -> EBUSY (structure)",
                     "get_length suffices for write (same traversal, same rounding, header room; everything on the duplication path goes through the tma)",
                     "destroy unmaps and releases exactly the private allocations"]
